@@ -208,7 +208,7 @@ class Judge:
     def j_build(self, op, o):
         res = o['res']
         if o['inv']:
-            self.disc('C04', 'I-runs', op['i'], 'run executed during chain construction', inv=o['inv'])
+            self.disc('C04', 'I-runs', op['i'], 'run executed during chain construction', ran=o['inv'])
         if 'err' in res:
             self.disc('C01', 'I-build', op['i'], 'chain construction failed', err=res['err'])
             return
@@ -220,7 +220,7 @@ class Judge:
     def j_mbuild(self, op, o):
         res = o['res']
         if o['inv']:
-            self.disc('C04', 'I-runs', op['i'], 'run executed during MultiChain construction', inv=o['inv'])
+            self.disc('C04', 'I-runs', op['i'], 'run executed during MultiChain construction', ran=o['inv'])
         if 'err' in res:
             self.disc('C13', 'I-multi', op['i'], 'MultiChain construction failed', err=res['err'])
             return
@@ -281,7 +281,7 @@ class Judge:
         res = o.get('res') or {}
         kind = op['kind']
         if o['inv']:
-            self.disc('C04', 'I-runs', op['i'], f'run executed during inspection ({kind})', inv=o['inv'])
+            self.disc('C04', 'I-runs', op['i'], f'run executed during inspection ({kind})', ran=o['inv'])
         muts = [f for f in o['fs'] if f[0] in ('wopen', 'rename', 'remove', 'truncate') and not _is_work_path(f[1])]
         if kind != 'links' and muts:
             self.disc('C04', 'I-inspect-pure', op['i'], f'inspection ({kind}) wrote or removed store files', fs=muts[:6])
@@ -542,7 +542,7 @@ class Judge:
             self._force_failed(chain, [name])
             return
         if o['inv']:
-            self.disc('C07', 'I-runs', op['i'], 'run executed by Task.force', inv=o['inv'])
+            self.disc('C07', 'I-runs', op['i'], 'run executed by Task.force', ran=o['inv'])
         self._apply_force(chain, [name], op.get('delete', False), op, o)
         self._check_flags(op, o, [op['cid']])
 
@@ -585,7 +585,7 @@ class Judge:
                 ev.request(n, top=True)
             ev.finish_multiset('C07')
         elif o['inv']:
-            self.disc('C07', 'I-runs', op['i'], 'run executed by Chain.force without recompute', inv=o['inv'])
+            self.disc('C07', 'I-runs', op['i'], 'run executed by Chain.force without recompute', ran=o['inv'])
         self._check_flags(op, o, [op['cid']])
 
     def j_mforce(self, op, o):
@@ -628,7 +628,7 @@ class Judge:
                 if t not in pred_tasks:
                     self.disc('C13', 'I-runs', op['i'], f'task {t[0]} ran although neither forced nor needed', got=sorted(map(str, got)))
         elif o['inv']:
-            self.disc('C13', 'I-runs', op['i'], 'run executed by MultiChain.force without recompute', inv=o['inv'])
+            self.disc('C13', 'I-runs', op['i'], 'run executed by MultiChain.force without recompute', ran=o['inv'])
         self._check_flags(op, o, cids, prop='C13')
 
     # ------------------------------------------------------------------ faults, misc
@@ -692,7 +692,7 @@ class Judge:
     def j_migrate(self, op, o):
         res = o.get('res') or {}
         if o['inv']:
-            self.disc('C20', 'I-runs', op['i'], 'migration executed a run', inv=o['inv'])
+            self.disc('C20', 'I-runs', op['i'], 'migration executed a run', ran=o['inv'])
         if o.get('crash'):
             # the migrating process died: whatever it had copied so far is in the target, the last file possibly torn
             self.stats['crashes'] += 1
